@@ -83,6 +83,9 @@ def build_arrays(inp: dict):
     if order == "F":
         pred = np.asfortranarray(pred)
         ref = np.asfortranarray(ref)
+    if inp.get("poison"):
+        # a malformed pair (shape mismatch): the evaluation of this subject raises
+        ref = ref[:-1].copy()
     if inp.get("strided"):
         def view(a):
             big = np.zeros(tuple(2 * n for n in a.shape), dtype=a.dtype)
